@@ -327,7 +327,7 @@ META["C11"] = {
 
 META["C13"] = {
     "title": "Cold pipelines are lazy and every subscription is independent",
-    "rule": "cases = (cold chain built with the CLONEABLE builder: source in from_iter / counting iterator / of / of_fn / start / defer(nested chain) / create(sync script) / repeat / empty / throw / of_result / of_option / interval.take(k) / scripted from_stream / from_future_result on the virtual clock; 0..n operators (quick n=3, thorough n=5) drawn from the stateful catalogue (scan, last, default_if_empty, distinct*, skip*, take*, pairwise, buffer*, collect, start_with, reduce, count, delay, debounce, throttle(_time) all edges, buffer_with_time, buffer_with_count_and_time, observe_on, delay_subscription, subscribe_on, two-input operators over cold sub-chains), optionally finalize last; 2-3 clones subscribed successively | overlapping (next clone joins while the previous still runs) | nested (next clone subscribed from inside the previous one's first item callback)). Checked: no log event, spawned task or timer before the first subscription; source closures called once per subscription; a scripted future that is the pipeline's own source polled at least once by every subscription (future_not_polled); every subscription's (virtual-time-relative) trace equals the first one's; finalize runs once per ended subscription. In a quarter of the cases every subscription is explicitly unsubscribed once it has run dry, before the next clone is subscribed (giving up one subscription must not reach into another clone's). The combine_latest combinator used by the builder is stateful (it numbers its own calls): after each successive subscription began its first call must carry number 1. FIFO scheduler model (equal deadlines in creation order) so that identical subscriptions behave identically. Non-trivial: at least two subscriptions of a chain with at least one stateful operator; distinct = hash(case).",
+    "rule": "cases = (cold chain built with the CLONEABLE builder: source in from_iter / counting iterator / of / of_fn / start / defer(nested chain) / create(sync script) / repeat / empty / throw / of_result / of_option / interval.take(k) / scripted from_stream / from_future_result on the virtual clock; 0..n operators (quick n=3, thorough n=5) drawn from the stateful catalogue (scan, last, default_if_empty, distinct*, skip*, take*, pairwise, buffer*, collect, start_with, reduce, count, delay, debounce, throttle(_time) all edges, buffer_with_time, buffer_with_count_and_time, observe_on, delay_subscription, subscribe_on, two-input operators over cold sub-chains), optionally finalize last; 2-3 clones subscribed successively | overlapping (next clone joins while the previous still runs) | nested (next clone subscribed from inside the previous one's first item callback)). Checked: no log event, spawned task or timer before the first subscription; source closures called once per subscription; a scripted future that is the pipeline's own source polled at least once by every subscription (future_not_polled); every subscription's (virtual-time-relative) trace equals the first one's; finalize runs once per ended subscription. In a quarter of the cases every subscription is explicitly unsubscribed once it has run dry, before the next clone is subscribed (giving up one subscription must not reach into another clone's). The combine_latest combinator used by the builder is stateful (it numbers its own calls): after each successive subscription began its first call must carry number 1. Varying-input battery (counter subscriptions_fed_different_inputs): a cold source that reads the world when it is subscribed (the k-th subscription plays script k; 15 scripts: 5 item lists x {complete, error, open}) under every single-input operator of the catalogue, three successive subscriptions of clones fed scripts a, b, a for every ordered pair a != b: each subscription's output must be what the list-semantics reference model (C03's) gives for ITS script - state left behind by an earlier subscription, invisible while all subscriptions see the same input, shows up as subscription_depends_on_an_earlier_one. FIFO scheduler model (equal deadlines in creation order) so that identical subscriptions behave identically. Non-trivial: at least two subscriptions of a chain with at least one stateful operator; distinct = hash(case).",
     "assumptions": COMMON_ASSUME + [
         "timer, share and the flattening operators are not Clone-able (TimerObservable / MergeAllOp are not Clone; share is shared by design) and are not part of this check",
     ],
@@ -335,7 +335,7 @@ META["C13"] = {
     "level_text": "Exploration over sampled cold chains and three subscription patterns.",
     "level_note": "Trusted: cloneable builder (library's CloneableBoxOp), virtual clock, arena executor.",
     "design_ref": "DESIGN.md §5 C13",
-    "require": {"quick": {"operators_covered": 60, "nested": 10000, "overlapping": 10000}, "thorough": {"operators_covered": 60}},
+    "require": {"quick": {"operators_covered": 60, "nested": 10000, "overlapping": 10000, "subscriptions_fed_different_inputs": 15000}, "thorough": {"operators_covered": 60}},
 }
 
 META["C17"] = {
